@@ -377,9 +377,11 @@ def check_S(S, p):
             S.count("S_short_writes")
             if r.rc != b.rc or r.out != b.out:
                 S.viol("C18:short-write:S", "[S %r stdout accepting %d bytes per write()] rc %s output differs" % (sub, wmax, r.rc), {"level": "S", "argv": sub, "input_b64": E.b64(spec_in)})
-        for off in range(0, nout, max(1, stride // 3)):
-            r, log = shim_run(sub, stdin_bytes=spec_in, env_extra={"FAILIO_WRITE_FD": "1", "FAILIO_WRITE_FAIL_AT": str(off), "FAILIO_WRITE_ERRNO": str([28, 5, 32][off % 3]),
-                                                                  "FAILIO_WRITE_MAX": str([0, 3][off % 2])})
+        for wk, off in enumerate(range(0, nout, max(1, stride // 3))):
+            werr = [28, 5, 32, 32][wk % 4]          # ENOSPC, EIO, EPIPE (a closed pipe reader)
+            r, log = shim_run(sub, stdin_bytes=spec_in, env_extra={"FAILIO_WRITE_FD": "1", "FAILIO_WRITE_FAIL_AT": str(off), "FAILIO_WRITE_ERRNO": str(werr),
+                                                                  "FAILIO_WRITE_MAX": str([0, 3][wk % 2])})
+            S.observe("S_write_errnos", werr)
             S.count("S_runs")
             delivered = any(l.startswith("fault w") for l in log)
             if delivered:
@@ -387,9 +389,72 @@ def check_S(S, p):
                 S.observe("S_write_fault_offsets", off)
                 if r.rc == 0:
                     S.viol("C18:write-fault:S:%s" % sub[0], "[S %r] write() to stdout failed with errno %s at offset %d of %d but the run exited 0" % (
-                        sub, [28, 5, 32][off % 3], off, nout), {"level": "S", "argv": sub, "input_b64": E.b64(spec_in), "fail_at": off,
+                        sub, werr, off, nout), {"level": "S", "argv": sub, "input_b64": E.b64(spec_in), "fail_at": off,
                                                                 "replay": __import__("vf.replay", fromlist=["x"]).exit_status(r, True)})
             S.case(key="%s|Sw|%s|%d" % (digest(spec_in), sub, off), nontrivial=delivered)
+
+
+def check_S_closed_reader_and_named_pipes(S, p):
+    """(1) stdout is a real pipe whose reader goes away (EPIPE): the run must not report success.
+    (2) an uncompressed VCF / raw BCF larger than the 64 KiB read-ahead given as a PATH to a named pipe and as /dev/stdin."""
+    import subprocess, threading
+    seed = S.seed
+    rng = rng_for(seed, "c18", p["name"], "pipes")
+    # (1) reader closes after a few bytes; output must be large enough to overflow the pipe buffer (64 KiB)
+    shape = [rng.choice([9001, 12000])]
+    vals = GS.values(rng, shape[0], "real")
+    src = GS.npy_bytes(shape, vals)
+    for sub in (["view", "-O", "npy"], ["view", "--precision", "12"], ["fold", "-p", "12"]):
+        exe = build.cli("release")
+        pr = subprocess.Popen([exe] + sub, stdin=subprocess.PIPE, stdout=subprocess.PIPE, stderr=subprocess.PIPE, env=dict(cli.BASE_ENV))
+        try:
+            pr.stdin.write(src)
+            pr.stdin.close()
+        except OSError:
+            pass
+        pr.stdout.read(rng.choice([1, 100, 5000]))
+        pr.stdout.close()                       # the reader goes away while the writer still has > 64 KiB to deliver
+        err = pr.stderr.read()
+        rc = pr.wait(timeout=60)
+        S.count("S_runs")
+        S.count("S_closed_reader_runs")
+        if rc == 0:
+            S.viol("C18:write-fault:S:closed-reader", "[S %r] the reader of stdout closed the pipe after a few bytes of a %d-value spectrum but the run exited 0 (stderr %r)" % (
+                sub, shape[0], err[:120]), {"level": "S", "argv": sub, "values": shape[0]})
+        S.case(key="closed|%s|%s" % (p["name"], sub), nontrivial=True)
+    # (2) big uncompressed inputs through non-regular paths
+    if p["fmt"] in ("vcf", "rawbcf"):
+        cs = G.random_callset(rng, nsamples=rng.choice([20, 30]), nrecords=rng.choice([900, 1400]), p_missing=0.01, p_multi=0, extras=False)
+        data = E.encode(cs, p["fmt"], rng)
+        base = cli.sfs(["create"], stdin=data)
+        fifo = E.tmpfile(b"", ".fifo")
+        os.unlink(fifo)
+        os.mkfifo(fifo)
+
+        def feed():
+            try:
+                with open(fifo, "wb") as f:
+                    f.write(data)
+            except OSError:
+                pass
+        th = threading.Thread(target=feed, daemon=True)
+        th.start()
+        r1 = cli.sfs(["create", fifo])
+        if th.is_alive():
+            try:
+                os.close(os.open(fifo, os.O_RDONLY | os.O_NONBLOCK))
+            except OSError:
+                pass
+        th.join(timeout=10)
+        r2 = cli.sfs(["create", "/dev/stdin"], stdin=data)
+        S.count("S_runs", 2)
+        S.count("S_named_pipe_big_inputs", 2)
+        S.observe("big_file_lengths", len(data))
+        for how, r in (("named pipe", r1), ("/dev/stdin", r2)):
+            if r.rc != base.rc or r.out != base.out:
+                S.viol("C18:chunk:S:named-pipe:%s" % p["fmt"], "[S create on a %d-byte %s given as a path to a %s] rc %s stdout %r stderr %r; on stdin: rc %s stdout %r" % (
+                    len(data), p["fmt"], how, r.rc, r.out[:80], r.err[:160], base.rc, base.out[:80]), {"level": "S", "how": how, "fmt": p["fmt"], "bytes": len(data)})
+        S.case(key="bigpipe|%s|%s" % (p["name"], digest(data)), nontrivial=True)
 
 
 def check_S_output_path(S, p):
@@ -437,6 +502,7 @@ def shard(S, p):
     check_L_write(S, p)
     check_S(S, p)
     check_S_output_path(S, p)
+    check_S_closed_reader_and_named_pipes(S, p)
 
 
 def post(total, tier, seed):
